@@ -46,6 +46,7 @@ type netCfg struct {
 	allPull      int // 0 mixed, 1 all pull, 2 all push
 	advStranger, advRole, advRestart, advDup, advTerminal, advLocalRole bool
 	holdOpen     bool // the responder's application never lifts limits / releases finalization: channels stay open and quiescent
+	stopMid      bool // Manager.Stop on one node while transfers are active, optionally followed by a new manager on the same datastore
 	sendFail     bool // from some graphsync delivery on, every stream write fails (streams still open) until the settle phase
 }
 
@@ -768,6 +769,66 @@ func (nr *netRun) installCrash() {
 	}
 }
 
+// installStopMid stops one node's manager in an orderly way at a tape-chosen moment of the run phase (after so many
+// scheduling steps or so much simulated time), while transfers are active; the process then exits and, in half of the
+// runs, a new manager starts on the same datastore and restarts the unfinished channels.
+func (nr *netRun) installStopMid() {
+	r := nr.r
+	n := nr.A
+	if r.Intn(2) == 0 {
+		n = nr.B
+	}
+	bySteps := r.Intn(2) == 0
+	nSteps := r.Intn(6000)
+	after := time.Duration(r.Intn(20000)) * time.Millisecond
+	comeBack := r.Intn(2) == 0
+	down := time.Duration(r.Intn(8000)) * time.Millisecond
+	simrt.GoNamed("app:stop-mid", n.Name, func() {
+		if bySteps {
+			yieldN(nSteps)
+		} else {
+			simrt.Sleep(after)
+		}
+		r.Fault("manager-stop-while-active")
+		nr.crashed = true // same relaxations as a crash without data loss
+		if !n.StopClean() {
+			return
+		}
+		for _, c := range r.Calls {
+			if c.Node == n.Name && c.Task != nil && !c.Task.Done() {
+				c.AllowBlocked = true // the process has exited
+			}
+		}
+		if !comeBack {
+			return
+		}
+		simrt.Sleep(down)
+		if !n.Start() {
+			return
+		}
+		nr.registerConfigurersOn(n)
+		chans, err := n.Mgr.InProgressChannels(ctxBG)
+		if err != nil {
+			return
+		}
+		for _, x := range nr.xs {
+			x := x
+			st, ok := chans[x.chid]
+			if !x.opened || !ok {
+				continue
+			}
+			if sn := TakeSnap(r, "InProgressChannels-after-stop", st); isTerminal(sn.Status) {
+				continue
+			}
+			wait := time.Duration(r.Intn(3000)) * time.Millisecond
+			r.Op(n.Name, "app:restart-after-stop", func() {
+				simrt.Sleep(wait)
+				nr.api(n, "Restart", x, func() error { return n.Mgr.RestartDataTransferChannel(context.Background(), x.chid) })
+			})
+		}
+	})
+}
+
 // ---------------------------------------------------------------- the scenario
 
 func netTransfer(mk func(r *RunCtx) netCfg) func(r *RunCtx) {
@@ -793,6 +854,9 @@ func netTransfer(mk func(r *RunCtx) netCfg) func(r *RunCtx) {
 		if cfg.crash {
 			nr.installCrash()
 		}
+		if cfg.stopMid {
+			nr.installStopMid()
+		}
 		r.S.SetPreemptions(r.Intn(4))
 		for _, x := range nr.xs {
 			x := x
@@ -807,8 +871,12 @@ func netTransfer(mk func(r *RunCtx) netCfg) func(r *RunCtx) {
 		simrt.Sleep(30 * time.Minute)
 		nr.evaluate()
 		nr.adversarialPhase()
-		_ = nr.A.Mgr.Stop(context.Background())
-		_ = nr.B.Mgr.Stop(context.Background())
+		if nr.A.Up {
+			nr.A.StopTracked(false)
+		}
+		if nr.B.Up {
+			nr.B.StopTracked(false)
+		}
 	}
 }
 
@@ -1100,7 +1168,13 @@ func init() {
 	}
 	Register("C04", Stratum{Name: "net-validator-outcomes", Weight: 5, Fn: netTransfer(validatorCfg)}, Stratum{Name: "net-mixed", Weight: 2, Fn: netTransfer(mixCfg)},
 		Stratum{Name: "net-process-crash-and-restart", Weight: 1, Fn: netTransfer(crashCfg)})
-	Register("C20", Stratum{Name: "net-mixed", Weight: 2, Fn: netTransfer(mixCfg)})
+	stopCfg := func(r *RunCtx) netCfg {
+		c := mixCfg(r)
+		c.nCh = 1 + r.Intn(3)
+		c.stopMid = true
+		return c
+	}
+	Register("C20", Stratum{Name: "net-mixed", Weight: 2, Fn: netTransfer(mixCfg)}, Stratum{Name: "net-stop-while-active", Weight: 3, Fn: netTransfer(stopCfg)})
 	Register("C01",
 		Stratum{Name: "net-fault-free", Weight: 2, Fn: netTransfer(base)},
 		Stratum{Name: "net-pauses-limits-finalization", Weight: 4, Fn: netTransfer(func(r *RunCtx) netCfg {
